@@ -319,6 +319,18 @@ def rule_dispatch_restart(ctx, rep):
                 expect = 0
         if log.get('raised'):
             problems.setdefault('raises', 'the dispatch loop raises %s' % (log['raised'],))
+    # a block is read by the type whose start() has just accepted that very line - also when the same text was seen
+    # before (start() leaves the scratch state read() works from: an answer remembered from an earlier line is no
+    # substitute for the call)
+    for log in simulate_dispatch(ctx, repeat=True):
+        prev = None
+        for e in log['events']:
+            if e[0] == 'read':
+                if not (prev is not None and prev[0] == 'start' and prev[1] == e[1] and prev[3]):
+                    problems.setdefault('read-without-start', 'read() of token type %d runs without start() of that type having just '
+                                        'accepted the line (on a line whose text occurred before): it works from the scratch state '
+                                        'another block left' % e[1])
+            prev = e
     if n_scans < 4:
         raise AnalysisError('tokenize_block: simulated dispatch explored only %d scans' % n_scans)
     rep.obligation(rule, not problems, {'tokenize_block': 'simulated with %d abstract token types over abstract lines' % 2,
@@ -363,10 +375,12 @@ class MockType(AbstractValue):
         return Unknown('mock.%s' % name)
 
 
-def simulate_dispatch(ctx, ntypes=2, nlines=2):
-    """All paths of tokenize_block(<abstract lines>, [MockType...]) with the real FileWrapper."""
-    if 'c05_dispatch' in ctx._cache:
-        return ctx._cache['c05_dispatch']
+def simulate_dispatch(ctx, ntypes=2, nlines=2, repeat=False):
+    """All paths of tokenize_block(<abstract lines>, [MockType...]) with the real FileWrapper. With `repeat` the
+    last line is the first line again (documents repeat lines: blank lines, bullets, fences, headings)."""
+    ckey = 'c05_dispatch' + ('_repeat' if repeat else '')
+    if ckey in ctx._cache:
+        return ctx._cache[ckey]
     model = ctx.model
     tb = model.func('block_tokenizer.tokenize_block')
     fw = model.cls('block_tokenizer.FileWrapper')
@@ -374,7 +388,7 @@ def simulate_dispatch(ctx, ntypes=2, nlines=2):
     runs = []
 
     def runner(oracle):
-        it = Interp(model, loop_bound=ntypes + 1, while_bound=nlines + 2)
+        it = Interp(model, loop_bound=ntypes + 1, while_bound=nlines + (3 if repeat else 2))
         it.reset_run(oracle)
         it.trace_calls = []
         log = {'events': [], 'ntypes': ntypes, 'calls': it.trace_calls}
@@ -397,6 +411,8 @@ def simulate_dispatch(ctx, ntypes=2, nlines=2):
         it.func_hooks[nxt.qualname] = next_hook
         types = [MockType(i, log) for i in range(ntypes)]
         lines = [AbsStr(label='line%d' % i) for i in range(nlines)]
+        if repeat:
+            lines.append(lines[0])
         try:
             it.call_function(tb, [lines, types], {})
         except Raised as r:
@@ -407,7 +423,7 @@ def simulate_dispatch(ctx, ntypes=2, nlines=2):
     for trace, log in enumerate_paths(runner, 4000):
         log.pop('wrapper', None)
         runs.append(log)
-    ctx._cache['c05_dispatch'] = runs
+    ctx._cache[ckey] = runs
     return runs
 
 
